@@ -390,6 +390,7 @@ type c09Counters struct {
 	thresholdPairs                atomic.Int64
 	maxK                          atomic.Int64
 	withCandidate                 atomic.Int64
+	laterRoundPairs               atomic.Int64 // pledging chain, rounds 1 and 2
 }
 
 var c09Ctr c09Counters
@@ -561,7 +562,7 @@ func c09Judge(set *c09RefSet, ct *c09Cert) c09Verdict {
 func (ex *c09Exercise) run(c *verifmc.Check) {
 	names, qs, targets, certs := ex.names, ex.qs, ex.targets, ex.certs
 	replay := func(q uint64, t c09Target, ct *c09Cert) map[string]any {
-		return map[string]any{"history": names, "timestamp_minus_epoch": int64(q) - int64(ex.epoch), "chain": map[bool]string{true: "accepted-chain-round-1", false: "pledging-chain-round-0"}[t.who < 0],
+		return map[string]any{"history": names, "timestamp_minus_epoch": int64(q) - int64(ex.epoch), "chain": map[bool]string{true: "accepted-chain", false: "pledging-chain"}[t.who < 0], "round": t.round,
 			"mask": fmt.Sprintf("%#x", ct.Mask), "signature": ct.Sig.String(), "hash": ct.Hash.String(), "kind": ct.Kind}
 	}
 
@@ -760,7 +761,11 @@ func c09Run(c *verifmc.Check, hist []mcMemEvent) {
 			c.Require(false, "no chain for pledged node %d", who)
 			return
 		}
-		ex.targets = append(ex.targets, c09Target{chain: ch, nodeId: d.Idents[who].Id, round: 0, who: who})
+		// round 0 (the accept snapshot: the pledging node is a signer) and rounds 1, 2
+		// on the same chain held in pledging state (the pledging node is NOT a signer)
+		for round := uint64(0); round <= 2; round++ {
+			ex.targets = append(ex.targets, c09Target{chain: ch, nodeId: d.Idents[who].Id, round: round, who: who})
+		}
 	}
 	ex.refs = make([][][]c09RefSet, len(ex.qs))
 	for qi, q := range ex.qs {
@@ -769,7 +774,17 @@ func c09Run(c *verifmc.Check, hist []mcMemEvent) {
 			if t.who >= 0 && !c09RefPledgingAt(d, t.who, q) {
 				continue
 			}
-			keys, ids, T := c09Ref(d, q, t.who)
+			if t.round == 2 && qi%2 == 1 {
+				continue // round 2 at every second instant (same code path as round 1)
+			}
+			appendWho := -1
+			if t.round == 0 {
+				appendWho = t.who
+			}
+			if t.who >= 0 && t.round > 0 {
+				c09Ctr.laterRoundPairs.Add(1)
+			}
+			keys, ids, T := c09Ref(d, q, appendWho)
 			ex.refs[qi][ti] = []c09RefSet{{keys: keys, ids: ids, T: T}}
 			if _, has := c09RefCandidate(d, q); has {
 				c09Ctr.withCandidate.Add(1)
@@ -931,7 +946,7 @@ func TestMC_C09(t *testing.T) {
 	c := verifmc.Start(t, "C09", "exploration")
 	defer c.Finish()
 	depth := verifmc.Pick(c, 2, 3)
-	c.SetRule("all membership histories of <= " + fmt.Sprint(depth) + " real finalized events {pledge, accept, cancel, remove-oldest} at the boundary offsets of their day's operation window that the write path accepts; per history every record / maturity (30 s, 12 h) / window boundary instant (+-1 ns) x {genesis chain round 1, pledging chain round 0 while pledging} x every non-empty mask over every key set of the history (|K| 7..9) x {honest CoSi over h1 and h2, shown with the other hash, with mask +1/-1/moved bit, + bit |K|, + bit 63, zero signature, wrong s}; each query three times on one node (first, after cacheStore.Wait, reverse order after all conflicting queries); plus nodes with the MAINNET network id and synthetic records (8..11 founding members, optionally one recent member, a removal 30 s into the last pre-fork window / the first post-fork window / none) at 21 instants around both windows with every mask naming >= threshold-2 signers over the current and the legacy key vector; a distinct case is a distinct history / configuration")
+	c.SetRule("all membership histories of <= " + fmt.Sprint(depth) + " real finalized events {pledge, accept, cancel, remove-oldest} at the boundary offsets of their day's operation window that the write path accepts; per history every record / maturity (30 s, 12 h) / window boundary instant (+-1 ns) x {genesis chain round 1, pledging chain rounds 0, 1, 2 while pledging (the pledging node signs round 0 only)} x every non-empty mask over every key set of the history (|K| 7..9) x {honest CoSi over h1 and h2, shown with the other hash, with mask +1/-1/moved bit, + bit |K|, + bit 63, zero signature, wrong s}; each query three times on one node (first, after cacheStore.Wait, reverse order after all conflicting queries); plus nodes with the MAINNET network id and synthetic records (8..11 founding members, optionally one recent member, a removal 30 s into the last pre-fork window / the first post-fork window / none) at 21 instants around both windows with every mask naming >= threshold-2 signers over the current and the legacy key vector; a distinct case is a distinct history / configuration")
 	c.Assume("events are finalized at the storage layer (LockInputs, WriteTransaction, WriteSnapshot on a genesis chain) followed by the real LoadConsensusNodes; the real clock (years after the fixture epoch) is 'now' for chain identities",
 		"the snapshot hash is an input of verifyFinalization: the same two hashes are presented at every instant",
 		"reference key set / threshold: plain replay of the events (accepted members, 12 h readiness, 30 s maturity, predictable removal candidate inside the operation window, base*2/3+1, minimum 7); only acceptances that the reference rejects are violations",
@@ -976,6 +991,7 @@ func TestMC_C09(t *testing.T) {
 	c.Set("histories_refused_by_write_path", k.refused.Load())
 	c.Set("instant_chain_pairs", k.instants.Load())
 	c.Set("pledging_chain_pairs", k.pledgingQueries.Load())
+	c.Set("pledging_chain_round_1_2_pairs", k.laterRoundPairs.Load())
 	c.Set("instants_with_removal_candidate", k.withCandidate.Load())
 	c.Set("key_set_threshold_classes", k.classes.Load())
 	c.Set("max_key_set", k.maxK.Load())
@@ -996,6 +1012,7 @@ func TestMC_C09(t *testing.T) {
 	c.Require(k.accepted.Load() > 1000 && k.rejected.Load() > 1000, "vacuous: %d accepted, %d rejected", k.accepted.Load(), k.rejected.Load())
 	c.Require(k.thresholdMet.Load() == k.thresholdPairs.Load(), "honest exact-threshold certificates were accepted at only %d of the %d (instant, chain) pairs where the reference threshold can be met", k.thresholdMet.Load(), k.thresholdPairs.Load())
 	c.Require(k.cacheHits.Load() > k.queries.Load()/2, "remembered results were not exercised: %d cache hits for %d queries", k.cacheHits.Load(), k.queries.Load())
+	c.Require(k.laterRoundPairs.Load() > 0, "rounds 1 and 2 of a pledging chain were not queried")
 	c.Require(k.pledgingQueries.Load() > 0 && k.withCandidate.Load() > 0 && k.maxK.Load() >= 8, "pledging chain / removal window / grown key set not reached (%d, %d, %d)", k.pledgingQueries.Load(), k.withCandidate.Load(), k.maxK.Load())
 	c.Require(c.OutcomeCount("accept:under-legacy-key-vector") > 0 && c.OutcomeCount("accept:under-current-key-vector") > 0, "mainnet-id part: the legacy retry was not reached (%d / %d)", c.OutcomeCount("accept:under-legacy-key-vector"), c.OutcomeCount("accept:under-current-key-vector"))
 	c.Require(c.OutcomeCount("accept:honest") > 0 && c.OutcomeCount("accept:honest-h2") > 0, "no honest certificate accepted")
